@@ -218,22 +218,30 @@ Proof.
   cbn [skipn]. apply IH. cbn [forallb] in H. apply andb_true_iff in H. apply H.
 Qed.
 
+Lemma normal_or_star_good name :
+  wf_name name -> good (fun w => wf_name (mw_name w)) (normal_or_star name).
+Proof.
+  intro Hn. unfold normal_or_star.
+  destruct (labels name) as [|l0 [|l1 t]] eqn:E; cbn [len_ge idx nth_error bind slice_from skipn]; try exact Hn.
+  destruct (leqb l0 S_STAR); cbn [bind]; [|exact Hn].
+  destruct (from_labels (l1 :: t)) as [parent|] eqn:F; [|exact Hn].
+  cbn [good mw_name]. apply from_labels_wf in F; [apply F|].
+  destruct Hn as [Hl _]. apply wf_labels_all in Hl. rewrite E in Hl. apply Forall_cons_iff in Hl. apply Hl.
+Qed.
+
 Lemma pdw_good origin s :
   wf_opt origin -> good (fun w => wf_name (mw_name w)) (parse_domain_or_wildcard origin s).
 Proof.
   intro Ho. unfold parse_domain_or_wildcard.
   destruct (is_nil s); [exact I|].
   destruct (leqb s S_STAR); [destruct origin; [exact Ho|exact I]|].
-  destruct s as [|c0 [|c1 t]]; cbn [len_ge len_is idx nth_error bind slice_from skipn].
-  - eapply good_bind; [apply parse_domain_good; exact Ho|]. intros a Ha. exact Ha.
-  - destruct (c0 =? 42); cbn [bind];
-      (eapply good_bind; [apply parse_domain_good; exact Ho|]; intros a Ha; exact Ha).
-  - destruct (c0 =? 42); cbn [bind].
-    + destruct (c1 =? 46).
-      * destruct t as [|c2 t']; cbn [len_is bind]; [apply root_wf|].
-        eapply good_bind; [apply parse_domain_good; exact Ho|]. intros a Ha. exact Ha.
-      * eapply good_bind; [apply parse_domain_good; exact Ho|]. intros a Ha. exact Ha.
-    + eapply good_bind; [apply parse_domain_good; exact Ho|]. intros a Ha. exact Ha.
+  assert (Hn : good (fun w => wf_name (mw_name w)) (let* name := parse_domain origin s in normal_or_star name)).
+  { eapply good_bind; [apply parse_domain_good; exact Ho|]. intros a Ha. apply normal_or_star_good. exact Ha. }
+  destruct s as [|c0 [|c1 t]]; cbn [len_ge len_is idx nth_error bind slice_from skipn]; try exact Hn.
+  destruct (c0 =? 42); cbn [bind]; [|exact Hn].
+  destruct (c1 =? 46); [|exact Hn].
+  destruct t as [|c2 t']; cbn [len_is bind]; [apply root_wf|].
+  eapply good_bind; [apply parse_domain_good; exact Ho|]. intros a Ha. exact Ha.
 Qed.
 
 Lemma parse_u32_good s : good (fun _ => True) (parse_u32 s).
@@ -1249,13 +1257,20 @@ Proof.
   destruct (c =? 46); [apply of_opt_total|]. destruct origin; [apply of_opt_total|exact I].
 Qed.
 
+Lemma normal_or_star_total name : total (normal_or_star name).
+Proof.
+  unfold normal_or_star.
+  destruct (labels name) as [|l0 [|l1 t]]; cbn [len_ge idx nth_error bind slice_from skipn]; try exact I.
+  destruct (leqb l0 S_STAR); cbn [bind]; [|exact I]. destruct (from_labels (l1 :: t)); exact I.
+Qed.
+
 Lemma pdw_total origin s : total (parse_domain_or_wildcard origin s).
 Proof.
   unfold parse_domain_or_wildcard.
   destruct (is_nil s); [exact I|].
   destruct (leqb s S_STAR); [destruct origin; exact I|].
-  assert (Hn : forall x, total (let* name := parse_domain origin x in Ok (MNormal name))).
-  { intro x. apply bind_total; [apply parse_domain_total|intros; exact I]. }
+  assert (Hn : forall x, total (let* name := parse_domain origin x in normal_or_star name)).
+  { intro x. apply bind_total; [apply parse_domain_total|intros; apply normal_or_star_total]. }
   assert (Hw : forall x, total (let* name := parse_domain origin x in Ok (MWildcard name))).
   { intro x. apply bind_total; [apply parse_domain_total|intros; exact I]. }
   destruct s as [|c0 [|c1 t]]; cbn [len_ge len_is idx nth_error bind slice_from skipn]; try apply Hn.
